@@ -93,6 +93,17 @@ def run(ctx):
                 if isinstance(x, tuple) and x[0] == 'field' and x[2] == 'port':
                     bad.append((bi, short(d)))
         rep.check(r2, not bad, fid + ':branches', 'branch conditions depending on ports: %s' % bad[:3], f.loc(bad[0][0]) if bad else '%s:%d' % (f.file, f.line))
+    # layer hand-over: every layer parses exactly the payload of the packet it was given - the object handed to the
+    # next layer is <Packet>::new(this_request.payload()) on every call, whatever the header says (no other slice of
+    # the frame, no header-length dependent alternative)
+    for fid, rx in [('layer_2::reply', r'^layer_2::arp::repl$|^layer_3::ipv[46]::repl$'), ('layer_3::ipv4::repl', r'^layer_4::\w+::repl$'), ('layer_3::ipv6::repl', r'^layer_4::\w+::repl$')]:
+        f = F.fn(fid)
+        for bi, t in f.calls(rx):
+            alts_ = palts(f.argv(bi, 0))
+            okh = bool(alts_)
+            for a in alts_:
+                okh = okh and is_call(a, r"Packet::<'a>::new$") and is_call(peel(a[2][0]), r"Packet<'a> as pnet::packet::Packet>::payload$") and peel(peel(a[2][0])[2][0]) == ('param', 1)
+            rep.check(r2, okh, '%s:hand-over:%s' % (fid, (t['resolved'] or [t['callee']])[0]), 'next layer parses %s (required: new(payload(this request)))' % [short(a)[:70] for a in alts_], f.loc(bi))
     udp = F.fn('layer_4::udp::repl')
     pc = udp.calls(r'^proto::repl$')
     ok = len(pc) == 1
